@@ -20,10 +20,10 @@ type readSite struct {
 }
 
 func isReadCall(c *ssa.CallCommon) bool {
-	if c.IsInvoke() && c.Method.Name() == "Read" && len(c.Args) == 1 {
-		return true
-	}
-	return isCallTo(c, "(*os.File).Read")
+	// io.Reader.Read on a caller-supplied reader. (*os.File).Read of a regular file whose size was just obtained
+	// (x2j-wrapper bulk file functions) is not covered: whether a single read of a regular file can be short is an
+	// operating-system fact, not a property of the reader schedules C13 quantifies over.
+	return c.IsInvoke() && c.Method.Name() == "Read" && len(c.Args) == 1
 }
 
 func (p *Prog) readSites(fns []*ssa.Function) []readSite {
